@@ -53,7 +53,7 @@ func dictKeyPool(r *rand.Rand, i int) (kind, text string, mk func() jen.Code) {
 		n := r.Intn(40) - 10
 		return "int", fmt.Sprint(n), func() jen.Code { return jen.Lit(n) }
 	case 1:
-		s := []string{"a", "ab", "a b", "", "z\"q", "ü", "a.b", "A"}[r.Intn(8)]
+		s := []string{"a", "ab", "a b", "", "z\"q", "ü", "a.b", "A", "100%", "50%% off", "rate %d", "%s", "a\nb", "aZb", "a!"}[r.Intn(15)]
 		return "string", fmt.Sprintf("%q", s), func() jen.Code { return jen.Lit(s) }
 	case 2:
 		s := []string{"a", "ab", "aZ", "a1", "b", "B", "_", "abc", "x", "x0", "x1", "x2", "y0"}[r.Intn(13)]
@@ -76,6 +76,9 @@ func dictKeyPool(r *rand.Rand, i int) (kind, text string, mk func() jen.Code) {
 		a, b := r.Intn(3), r.Intn(3)
 		return "composite", fmt.Sprintf("T{%d, %d}", a, b), func() jen.Code { return jen.Id("T").Values(jen.Lit(a), jen.Lit(b)) }
 	case 9:
+		if r.Intn(2) == 0 {
+			return "binary", "a % b", func() jen.Code { return jen.Id("a").Op("%").Id("b") }
+		}
 		return "binary", "a + b", func() jen.Code { return jen.Id("a").Op("+").Id("b") }
 	case 10:
 		return "paren", "(a)", func() jen.Code { return jen.Parens(jen.Id("a")) }
